@@ -4,5 +4,6 @@ CONSTANTS
   Mode = "any"
   MaxDepth = 0
   Pads = {0}
+  Os = "linux"
 INVARIANTS WellFormed Bounded Emit
 CHECK_DEADLOCK FALSE
